@@ -13,6 +13,7 @@
 (*   pend   ControlConnection.PendingChallenge as the index of the nonce (0 = none)            *)
 (*   nn     number of challenges issued on the connection so far (nonce k of c = <<c,k>>)      *)
 (*   idx    ClientRegistry.clientIDMap (by connection id; "none" = no entry)                   *)
+(*   ord    registered control connections by ControlConnection.CreatedAt (oldest first)        *)
 (*   issued clients that exist   expired  clients whose credentials expired                    *)
 (*   banned / black   addresses banned by the brute-force protector / blacklisted (every      *)
 (*          connection has its own remote address)    fails  failures recorded per address     *)
@@ -26,6 +27,9 @@ CONSTANTS Conn,      \* sequence of connection names, accepted in this order, e.
           Client,    \* sequence of client names, issued in this order,       e.g. <<"A","B">>
           MaxNonce,  \* challenges per connection
           MaxFail,   \* failures before the protector bans the address
+          MaxCtl,    \* ClientRegistry.maxConnections (SessionConfig.MaxControlConnections); 0 = no cap
+          Faults,    \* seeded design faults (always {} for the real code), used to show the model tells them apart:
+                     \*   "splitUpdateAuth"  UpdateAuth = lookup under the read lock, then index write under the write lock
           Ops,       \* enabled operation kinds
           Types,     \* connection types used in handshake messages
           PreAccept, \* TRUE: all connections are accepted in the initial state
@@ -56,9 +60,20 @@ None    == "none"
 
 AuthOf(s, c) == IF c \in s.reg THEN s.auth[c] ELSE None
 
-\* ClientRegistry.Register via handleHandshake's get-or-create: a fresh ControlConnection
-GetOrCreate(s, c) == IF c \in s.reg THEN s
-                     ELSE [s EXCEPT !.reg = @ \cup {c}, !.auth[c] = None, !.pend[c] = 0]
+DropIdx(s, d) == [X \in ClientS |-> IF s.idx[X] = d /\ s.auth[d] = X THEN None ELSE s.idx[X]]
+
+\* ClientRegistry.Remove -> removeConnectionLocked: closes the stream, conditional index delete
+Remove(s, d) == IF d \notin s.reg THEN s
+                ELSE [s EXCEPT !.tcl = @ \cup {d}, !.reg = @ \ {d}, !.idx = DropIdx(s, d)]
+
+\* ClientRegistry.Register via handleHandshake's get-or-create: a fresh ControlConnection; at
+\* the control-connection cap the oldest registered connection is evicted first
+\* (findOldestConnectionLocked + removeConnectionLocked, same mutex section)
+Live(s) == SelectSeq(s.ord, LAMBDA d : d \in s.reg)
+GetOrCreate(s, c) ==
+  IF c \in s.reg THEN s
+  ELSE LET s1 == IF MaxCtl > 0 /\ Cardinality(s.reg) >= MaxCtl /\ Live(s) # <<>> THEN Remove(s, Live(s)[1]) ELSE s
+       IN [s1 EXCEPT !.reg = @ \cup {c}, !.auth[c] = None, !.pend[c] = 0, !.ord = Append(Live(s1), c)]
 
 \* BruteForceProtector.RecordFailure (+ banIP at the threshold)
 RecFail(s, c) == LET n == IF s.fails[c] < MaxFail THEN s.fails[c] + 1 ELSE MaxFail
@@ -87,12 +102,6 @@ Handler(s0, c, m) ==
 
 \* does handleHandshake enter its registry section after the handler returned without error?
 Enters(s, c, m, out) == out # "fail" /\ m.type = "control" /\ AuthOf(s, c) # None
-
-DropIdx(s, d) == [X \in ClientS |-> IF s.idx[X] = d /\ s.auth[d] = X THEN None ELSE s.idx[X]]
-
-\* ClientRegistry.Remove -> removeConnectionLocked: closes the stream, conditional index delete
-Remove(s, d) == IF d \notin s.reg THEN s
-                ELSE [s EXCEPT !.tcl = @ \cup {d}, !.reg = @ \ {d}, !.idx = DropIdx(s, d)]
 
 \* handleHandshake: oldConn := GetByClientID(id); if it is another connection: Remove(old)
 Evict(s, c) == LET old == s.idx[s.auth[c]] IN
@@ -146,7 +155,7 @@ MsgEnabled(s, c, m) == /\ c \in s.sess /\ c \notin s.tcl
                        /\ m.k = "FC" => Cardinality(s.issued) < Len(Client)
                        /\ m.k = "P1" => s.nn[c] < MaxNonce
 
-Proj(s) == [auth |-> [c \in ConnS |-> AuthOf(s, c)], idx |-> s.idx, reg |-> s.reg, sess |-> s.sess, tcl |-> s.tcl]
+Proj(s) == [auth |-> [c \in ConnS |-> AuthOf(s, c)], idx |-> s.idx, reg |-> s.reg, sess |-> s.sess, tcl |-> s.tcl, cap |-> MaxCtl]
 
 \* Emit = "all": one behaviour per explored transition (with VIEW view: transition coverage of the
 \* state graph, each state reached by a shortest history); "last": only histories that reached
@@ -234,6 +243,18 @@ FirstLogin(c, ty) ==
         /\ Record([op |-> "FirstLogin", c |-> c, type |-> ty, out |-> r.out], t)
   /\ UNCHANGED <<pc, used, gv>>
 
+\* a handshake that does not authenticate: phase 1 for an identity nobody was issued. The
+\* connection is now a registered, unauthenticated control connection (and a failure is recorded
+\* for its address; one knock per connection keeps the protector's ban out of the C07 graphs).
+Knock(c) ==
+  /\ "Knock" \in Ops /\ ~Split /\ Go /\ c \in st.sess /\ c \notin st.tcl /\ st.fails[c] = 0
+  /\ LET r == MsgSeq(st, c, [k |-> "P1", id |-> "nobody", resp |-> None, type |-> "control"])
+         t == ReapAll(r.s)
+     IN /\ st' = t
+        /\ ctl' = ctl \cap t.reg
+        /\ Record([op |-> "Knock", c |-> c, out |-> r.out], t)
+  /\ UNCHANGED <<pc, proved, used, gv, dev>>
+
 \* Split mode: the three sections of handleHandshake as separately scheduled steps of
 \* connection c's read loop (only complete correct logins and first connects are explored)
 SHandler(c, m) ==
@@ -250,7 +271,16 @@ SHandler(c, m) ==
 SEvict(c) == /\ Split /\ pc[c] = "evict"
              /\ st' = IF c \in st.reg THEN Evict(st, c) ELSE st
              /\ pc' = [pc EXCEPT ![c] = "upd"] /\ UNCHANGED <<proved, ctl, used, gv, dev, hist>>
-SUpd(c) == /\ Split /\ pc[c] = "upd"
+\* seeded fault "splitUpdateAuth": the lookup (read lock) and the index write (write lock) are two
+\* steps; a removal of c in between leaves the index pointing at an unregistered connection
+SUpdLookup(c) == /\ Split /\ "splitUpdateAuth" \in Faults /\ pc[c] = "upd"
+                 /\ pc' = [pc EXCEPT ![c] = IF c \in st.reg THEN "updw" ELSE "idle"]
+                 /\ UNCHANGED <<st, proved, ctl, used, gv, dev, hist>>
+SUpdWrite(c) == /\ Split /\ pc[c] = "updw"
+                /\ st' = [st EXCEPT !.idx[st.auth[c]] = c]
+                /\ dev' = dev \cup (IF c \notin st.reg THEN {"updateAuthNotAtomic"} ELSE {})
+                /\ pc' = [pc EXCEPT ![c] = "idle"] /\ UNCHANGED <<proved, ctl, used, gv, hist>>
+SUpd(c) == /\ Split /\ "splitUpdateAuth" \notin Faults /\ pc[c] = "upd"
            /\ LET t == UpdAuth(st, c) IN
               /\ st' = t
               /\ dev' = dev \cup (IF c \in st.reg /\ st.idx[st.auth[c]] \notin {None, c} /\ st.idx[st.auth[c]] \in t.reg
@@ -296,7 +326,7 @@ Init ==
            tcl |-> {}, reg |-> {},
            auth |-> [c \in ConnS |-> None], pend |-> [c \in ConnS |-> 0], nn |-> [c \in ConnS |-> 0],
            idx |-> [X \in ClientS |-> None], issued |-> {}, expired |-> {}, banned |-> {}, black |-> {},
-           fails |-> [c \in ConnS |-> 0]]
+           fails |-> [c \in ConnS |-> 0], ord |-> <<>>]
   /\ pc = [c \in ConnS |-> "idle"]
   /\ proved = [c \in ConnS |-> {}] /\ ctl = {} /\ used = {} /\ gv = {} /\ dev = {} /\ hist = <<>>
 
@@ -304,10 +334,11 @@ Next == \/ Accept
         \/ \E c \in ConnS : \/ \E m \in Msgs(st, c) : Msg(c, m)
                             \/ \E X \in ClientS, ty \in Types : Login(c, X, ty)
                             \/ \E ty \in Types : FirstLogin(c, ty)
+                            \/ Knock(c)
                             \/ \E ty \in Types : SHandler(c, [k |-> "FC", id |-> None, resp |-> None, type |-> ty])
                             \/ \E X \in ClientS \cap st.issued, ty \in Types :
                                   st.nn[c] < MaxNonce /\ SHandler(c, [k |-> "LG", id |-> X, resp |-> None, type |-> ty])
-                            \/ SEvict(c) \/ SUpd(c)
+                            \/ SEvict(c) \/ SUpd(c) \/ SUpdLookup(c) \/ SUpdWrite(c)
                             \/ Close(c) \/ Heartbeat(c) \/ Unregister(c) \/ Ban(c) \/ Blacklist(c)
         \/ SReap
         \/ \E X \in ClientS : Expire(X) \/ \E n \in ConnS \cup {None} : Kick(X, n)
